@@ -1615,3 +1615,40 @@ func mustPassAvoiding(fn *ssa.Function, to ssa.Instruction, pred0 func(ssa.Instr
 	}
 	return visit(fn.Blocks[0])
 }
+
+// mustPassAvoidingFrom: as mustPassAvoiding, starting at the first instruction of block `from`.
+func mustPassAvoidingFrom(fn *ssa.Function, from *ssa.BasicBlock, to ssa.Instruction, pred0 func(ssa.Instruction) bool, skip func(b *ssa.BasicBlock, idx int) bool) bool {
+	pred := func(in ssa.Instruction) bool { return pred0(in) || transparentPass(in, pred0, 0) }
+	seen := map[*ssa.BasicBlock]bool{}
+	var visit func(b *ssa.BasicBlock, first bool) bool
+	visit = func(b *ssa.BasicBlock, first bool) bool {
+		if seen[b] && !first {
+			return true
+		}
+		seen[b] = true
+		for _, in := range b.Instrs {
+			if in == to && !first {
+				return false
+			}
+			if pred(in) {
+				return true
+			}
+		}
+		for i, s := range b.Succs {
+			if skip(b, i) {
+				continue
+			}
+			if s == to.Block() && len(s.Instrs) > 0 && s.Instrs[0] == to {
+				return false
+			}
+			if !visit(s, false) {
+				return false
+			}
+		}
+		return true
+	}
+	if from == nil {
+		return false
+	}
+	return visit(from, true)
+}
